@@ -43,9 +43,9 @@ THEOREMS = [("Kopf.Props.C03", "Kopf.C03." + n) for n in [
     "skip_path_purges", "stale_record_purged_instance", "reverted_change_witness", "blind_witness", "absorbed_change_witness"]]
 RULE = ("seeded histories of one object: 1-4 change handlers (create/update/resume/delete, label filters, retries/timeout/backoff/"
         "errors, scripts with finitely many temporary/arbitrary/permanent failures then ok, three lifecycles), 0-6 external ops "
-        "(spec edits, reverts, label flips, annotation edits, bursts, delete(+recreate), graceful stop / kill / kill right before or "
+        "(spec edits, reverts, label flips, annotation edits, status-only edits, bursts, delete(+recreate), graceful stop / kill / kill right before or "
         "right after the server applied the next PATCH, each with a downtime with or without edits, lost requests/responses), echo "
-        "delays, objects existing before the first start; then a silent tail long enough for every scripted failure. One case = one "
+        "delays, objects existing before the first start, objects whose essence is empty ({} / empty spec / status only); then a silent tail long enough for every scripted failure. One case = one "
         "history; distinct & non-trivial = distinct (outstanding change, restart kinds, tail pass shapes, final classification) with "
         "at least one handler-reason pass or restart")
 TRUSTED = ["harness/sim (virtual-time loop, fake API server, scripted handlers, attribute-level observation of kopf)",
@@ -183,17 +183,22 @@ class Facts:
         self.uid = (self.final or {}).get("metadata", {}).get("uid")
         # the last version whose essence (or existence / deletion mark) differs from its predecessor: nobody but the
         # environment changes those
+        # (t_for / rv_for: the last external write of any kind — the framework writes neither essence nor status here)
         self.t_ess, self.rv_ess = 0.0, 0
-        prev = None
+        self.t_for, self.rv_for = 0.0, 0
+        prev = prev_st = None
         for v in self.hist:
             b = v["body"]
             if b["metadata"].get("uid") != self.uid or v["event"] == "DELETED":
                 prev = None
                 continue
             cur = (py_essence(b), bool(b["metadata"].get("deletionTimestamp")))
+            st = b.get("status")
             if prev is None or cur != prev:
                 self.t_ess, self.rv_ess = float(v["t"]), int(b["metadata"]["resourceVersion"])
-            prev = cur
+            if prev is None or cur != prev or st != prev_st:
+                self.t_for, self.rv_for = float(v["t"]), int(b["metadata"]["resourceVersion"])
+            prev, prev_st = cur, st
         self.ess = py_essence(self.final) if self.final else None
         self.marked = bool(self.final and self.final["metadata"].get("deletionTimestamp"))
         self.blind = bool(self.final) and not any(py_matches(h, self.final) for h in _changing(sc))
@@ -438,8 +443,8 @@ def abstract_tail(sc: dict, tr: dict, cap: int) -> tuple[list | None, Any]:
     if f.cross_uid:
         return None, "cross-uid-write"      # not silent: a write of the deleted predecessor's cycle landed on this object
     # the tail: the last incarnation's passes on bodies that carry the last external (essence-changing) write
-    cycles = [c for c in tr["cycles"] if c["uid"] == f.uid and c["inc"] == f.last_inc and c["t0"] >= f.t_ess
-              and int(c["rv"]) >= f.rv_ess and c["event_type"] != "DELETED"]
+    cycles = [c for c in tr["cycles"] if c["uid"] == f.uid and c["inc"] == f.last_inc and c["t0"] >= f.t_for
+              and int(c["rv"]) >= f.rv_for and c["event_type"] != "DELETED"]
 
     def suppressed(c: dict) -> bool:
         fns = (c.get("apply") or {}).get("fns") or []
@@ -556,6 +561,11 @@ def gen_scenario(rng: Any, i: int) -> dict:
         handlers.append({"kind": kind, "id": f"{kind[0]}{k}", "opts": opts, "script": script, "default": "ok", "record_body": True})
     echo = rng.choice([0.0, 0.0, 0.0, 0.015625, 0.0625, 0.5])
     body0 = {"spec": {"x": 0}, "metadata": {"labels": {"l": rng.choice(["0", "1", "1"])}}}
+    empty = rng.random() < 0.14
+    if empty:
+        # an object whose essential state is EMPTY ({}), or as good as: nothing but system metadata, an empty spec, or
+        # a status only — its stored last-handled state is a falsy value that still means "handled"
+        body0 = rng.choice([{}, {}, {"spec": {}}, {"status": {"s": 0}}])
     sc: dict[str, Any] = {"seed": i, "lifecycle": rng.choice(["asap", "one_by_one", "all_at_once"]), "handlers": handlers,
                           "settings": {"execution.default_backoff": rng.choice([1.0, 2.0]),
                                        "watching.server_timeout": 32.0 if rng.random() < 0.08 else 4096.0},
@@ -566,7 +576,8 @@ def gen_scenario(rng: Any, i: int) -> dict:
         sc["objects"] = [{"name": "a", "body": body0}]
     else:
         tl.append([t, "create", "a", body0])
-    x, xs, label, note = 0, [0], body0["metadata"]["labels"]["l"], 0
+    x, xs, label, note = 0, [0], (body0.get("metadata") or {}).get("labels", {}).get("l", "0"), 0
+    stat = 0
     down = False
     wfaults = []
 
@@ -576,8 +587,13 @@ def gen_scenario(rng: Any, i: int) -> dict:
     for _ in range(rng.choice([0, 1, 2, 2, 3, 4, 6])):
         t += step()
         op = rng.choice(["edit", "edit", "edit", "revert", "flip", "flip", "note", "burst", "delete",
-                         "stop", "kill", "killw", "killw", "fault"])
-        if op == "edit":
+                         "stop", "kill", "killw", "killw", "fault", "status"])
+        if empty and rng.random() < 0.8:     # mostly keep the essence empty: restarts and non-essential events only
+            op = rng.choice(["status", "status", "stop", "kill", "killw"])
+        if op == "status":
+            stat += 1
+            tl.append([t, "edit", "a", {"status": {"s": stat}}])
+        elif op == "edit":
             x = max(xs) + 1
             xs.append(x)
             tl.append([t, "edit", "a", {"spec": {"x": x}}])
@@ -617,7 +633,10 @@ def gen_scenario(rng: Any, i: int) -> dict:
             tl.append([t, op] + ([rng.choice(["before", "after"])] if op == "killw" else []))
             for _e in range(rng.choice([0, 1, 1, 2, 3])):     # edits while (going) down
                 t += step()
-                if rng.random() < 0.3:
+                if empty and rng.random() < 0.8:
+                    stat += 1
+                    tl.append([t, "edit", "a", {"status": {"s": stat}}])
+                elif rng.random() < 0.3:
                     label = "0" if label == "1" else "1"
                     tl.append([t, "edit", "a", {"metadata": {"labels": {"l": label}}}])
                 else:
@@ -671,6 +690,8 @@ def _evaluate(ctx: Ctx, scenarios: list[dict], tie: bool = True) -> None:
         ctx.count("downtime_with_edits", o.get("downtime_edits", 0))
         ctx.count("ops", len(sc.get("timeline", [])))
         ctx.count("echo_delay", (sc.get("echo_delay") or {}).get("default", 0))
+        b0 = next((e[3] for e in sc.get("timeline", []) if e[1] == "create" and len(e) > 3), None) or (sc.get("objects") or [{}])[0].get("body")
+        ctx.count("initial_essence", "empty" if b0 is not None and not py_essence(b0) else ("empty-spec" if b0 is not None and py_essence(b0) == {"spec": {}} else "non-empty"))
         shape: dict[str, Any] = {"class": o["class"], "outstanding": o.get("outstanding"), "restarts": kinds, "fired": how,
                                  "findings": sorted(set(o["findings"]))}
         nontrivial = bool(kinds)
